@@ -71,6 +71,23 @@ Definition check_installed (c : installed_case) : list string :=
   | _ => []       (* the writer refused (undecodable per-file checksum): nothing was written *)
   end.
 
+(* several AddInstalledPackage calls on one file system, ParseInstalled of the file, and the
+   same again with what was read *)
+Record db_case := {
+  dc_recs : list (pkg * list hdr); dc_b64 : codec_tbl; dc_hex : codec_tbl;
+  dc_text : res string; dc_rb : res (list (pkg * list hdr)); dc_rw : res string }.
+Definition check_db (c : db_case) : list string :=
+  let enc := tbl_enc (dc_b64 c) in let dec := tbl_dec (dc_b64 c) in let hexd := tbl_dec (dc_hex c) in
+  let allfiles := flat_map snd (dc_recs c) in
+  tag_if (negb (res_eqb String.eqb (write_db enc hexd (dc_recs c)) (dc_text c))) "mismatch:installed-db-writer" ++
+  match dc_text c with
+  | Ok text =>
+      tag_if (negb (res_eqb (list_eqb rec_eqb) (parse_installed dec text) (dc_rb c))) "mismatch:installed-reader" ++
+      db_tags (dc_recs c) (dc_rb c) ++
+      attribute_two_slashes allfiles (attribute_dup_dir allfiles (installed_fixpoint_tags text (dc_rw c)))
+  | _ => []
+  end.
+
 (* ---- passwd / group ---------------------------------------------------------------- *)
 Record users_case := { uc_users : list user; uc_text : string; uc_rb : res (list user); uc_rw : res string }.
 Definition check_users (c : users_case) : list string :=
@@ -105,9 +122,9 @@ Definition check_pwfile (c : pwfile_case) : list string :=
 (* one sum type so that a stage can mix kinds *)
 Inductive c16_case :=
 | CIndex (c : index_case) | CRead (c : read_case) | CInstalled (c : installed_case)
-| CUsers (c : users_case) | CGroups (c : groups_case) | CPwRead (c : pwread_case) | CPwFile (c : pwfile_case).
+| CUsers (c : users_case) | CGroups (c : groups_case) | CPwRead (c : pwread_case) | CPwFile (c : pwfile_case) | CDb (c : db_case).
 Definition check_c16 (c : c16_case) : list string :=
   match c with
   | CIndex c => check_index c | CRead c => check_read c | CInstalled c => check_installed c
-  | CUsers c => check_users c | CGroups c => check_groups c | CPwRead c => check_pwread c | CPwFile c => check_pwfile c
+  | CUsers c => check_users c | CGroups c => check_groups c | CPwRead c => check_pwread c | CDb c => check_db c | CPwFile c => check_pwfile c
   end.
